@@ -56,6 +56,13 @@ M = [
     ("name-bt-mcmc-proposal-index-stuck-after-first-accept", "votekit/ballot_generator.py",
      "            j1, j2 = swap_indices[i]\n            acceptance_prob = min(\n                1,\n                pref_interval",
      "            j1, j2 = swap_indices[i if accept < 2 else accept]\n            acceptance_prob = min(\n                1,\n                pref_interval", ["C16"]),
+    ("pairwise-tied-position-not-counted", "votekit/graphs/pairwise_comparison_graph.py",
+     "                if cand1 in s:", "                if s == {cand1}:", ["C06"]),
+    ("score-vector-padding-needs-list", "votekit/utils.py",
+     "score_vector = list(score_vector) + [0]", "score_vector = score_vector + [0]", ["C04"]),
+    ("losers-lumped-into-one-group", "votekit/utils.py",
+     "    return (tuple(elected), ranking[i:], tiebreak_ranking)",
+     "    return (tuple(elected), ((frozenset(c for s_ in ranking[i:] for c in s_),) if i < len(ranking) else ()), tiebreak_ranking)", ["C04"]),
     ("load-csv-dropna", "votekit/cvr_loaders.py", "df.groupby(ranks, dropna=False)", "df.groupby(ranks, dropna=True)", ["C18"]),
     ("lp-root-omitted", "votekit/metrics/distances.py", "lp_dist = sum ** (1 / p_value)", "lp_dist = sum", ["C19"]),
     ("stv-m-bound-off-by-one", "votekit/elections/election_types/ranking/stv.py",
